@@ -359,6 +359,9 @@ class Engine:
             if isinstance(tgt, VecV):
                 dst.v = Z(tgt.length)
                 return
+            if isinstance(tgt, Opaque):
+                dst.v = Z(self.models.len_of(tgt))
+                return
             raise Unsupported("PtrMetadata of " + type(tgt).__name__)
         # aggregates
         m = re.match(r"^\{closure@([^}]*)\}(?: \{(.*)\})?$", rhs)
